@@ -13,6 +13,7 @@ func Gen(t *rapid.T) *Case {
 		c.Ambient = rapid.IntRange(0, busmodel.AmbAll).Draw(t, "ambient")
 	}
 	c.ShortTO = c.Store && rapid.IntRange(0, 3).Draw(t, "shortTO") == 0
+	c.Unsampled = rapid.IntRange(0, 3).Draw(t, "unsampled") == 0
 	nh := rapid.IntRange(0, 6).Draw(t, "nh")
 	for i := 0; i < nh; i++ {
 		c.Handlers = append(c.Handlers, H{
